@@ -228,6 +228,18 @@ def _get_tree(tree_spec):
         if added:
             wt.add(added)
         wt.commit("r%d" % rev, timestamp=(T1 if rev == 1 else T2), timezone=0, rev_id=b"rev-%d" % rev)
+    # the committed tree must be the specified one (e.g. a symlink target containing a newline is silently
+    # truncated by commit -- not an export matter, such specs are rejected here)
+    tree = wt.branch.repository.revision_tree(b"rev-2")
+    with tree.lock_read():
+        for path, kind, parts, ex, target, r in tree_spec:
+            ok = tree.kind(path) == {"f": "file", "d": "directory", "l": "symlink"}[kind]
+            if ok and kind == "f":
+                ok = tree.get_file_text(path) == _expand(parts) and bool(tree.is_executable(path)) == bool(ex)
+            if ok and kind == "l":
+                ok = tree.get_symlink_target(path) == target
+            if not ok:
+                raise AssertionError("committed tree differs from the specification at %r" % (path,))
     _state["trees"][k] = base
     _state["order"].append(k)
     return base
@@ -361,6 +373,8 @@ def impl(inp):
                     f.write(b"keep")
         _setrule(bool(inp["filtered"]))
         err = None
+        import warnings
+        warnings.filterwarnings("ignore", message="Duplicate name", category=UserWarning)
         try:
             if inp["via"] == "cmd":
                 from breezy.builtins import cmd_export
@@ -562,6 +576,11 @@ def _classes(inp, obs):
     # compression actually matches the requested format
     if fmt != "dir" and str(obs[0]) != fmt:
         out.append(("mismatch", f"archive is {obs[0]} but format {fmt} was requested"))
+    # the directories that make up the root exist as soon as anything was exported below them
+    for i in range(1, len(rootc) + 1):
+        rp = "/".join(rootc[:i])
+        if any(q.startswith(rp + "/") for q in got):
+            exp.setdefault(rp, ("d", b"", False, ""))
     for p in sorted(set(exp) | set(got)):
         e, g = exp.get(p), got.get(p)
         if e == g:
@@ -659,8 +678,8 @@ ODD_NAMES = [" ", "a b", "-dash", "--", "a\\b", "a:b", "*", "?", "a\tb", "'", '"
              "CaSe", "case", "%41", "a%2Fb", "@", "$HOME", "a;b", "a&b", "(p)", "[x]", "{y}", "a,b", "!", "+", "=", "a|b", "..."]
 BZR_NAMES = [".bzrignore", ".bzrrules", ".bzr-dir", ".bzrfoo.txt", ".bzx", ".bz", "x.bzr"]
 LONG = ["L" * 99, "M" * 100, "N" * 101, "P" * 155, "Q" * 156, "R" * 200, "S" * 255]
-TARGETS = ["f", "d/g", "../x", "/abs/olute", "té ", "T" * 99, "U" * 100, "V" * 101, "W" * 300, "a\nb", " ", "-t",
-           "中/文", "dangling"]
+TARGETS = ["f", "d/g", "../x", "/abs/olute", "té ", "T" * 99, "U" * 100, "V" * 101, "W" * 300, "a\tb", " ", "-t",
+           "中/文", "dangling", "e\u0301 nfd", "\u00e9\u0323", "a\\b"]
 ROOTS = [None, "", "R", "r/s", "R/", "é r", "-r", " ", "Z" * 120, "r.tar", "a b/c"]
 SIZES = [0, 1, 511, 512, 513, 1024, 10239, 10240, 10241, 20480, 32767, 32768, 32769, 65535, 65536, 65537, 131073]
 
@@ -843,6 +862,8 @@ def cases(rng, tier):
             if rng.random() < 0.25 and (sd is None or (sd and not sd.startswith("/") and "//" not in sd
                                                       and not sd.startswith(".") and ".." not in sd)):
                 via = "cmd"
+            if via == "cmd" and sd is not None and any(e[0] == sd.rstrip("/") and e[1] == "l" for e in tree):
+                via = "api"      # the command resolves its location argument through the file system (follows the link)
             inp = _mk(tree, f2, dest, root, sd, pft, filtered, via)
             if _effective_format(inp) == "dir" and rng.random() < 0.15:
                 inp["pre"] = rng.choice(["empty", "nonempty"])
